@@ -203,7 +203,85 @@ func init() {
 				}
 			}
 		}
-		c.NotCovered("proportionality within statistical tolerance; monotonicity of each normalise* function; floating-point corner cases; provider_optimizer.go's tiering around the selector")
+		c.Rule("C35e adaptive bounds are numbers before they are used: wherever the optimizer package obtains (p10, p90) from GetAdaptiveBounds, each of the two values is tested with math.IsNaN — in that function or in a predicate helper it is handed to — (an empty digest yields NaN, NaN; every ordering comparison with NaN is false, so range checks alone let it through and the weight becomes NaN, outside [min chance, 1])")
+		{
+			nSites := 0
+			for _, f := range c.P.AllFuncs {
+				if !inProd(f) || !strings.HasPrefix(ir.FuncName(f), "protocol/provideroptimizer.") {
+					continue
+				}
+				ir.EachInstr(f, func(in ssa.Instruction) {
+					call, ok := in.(*ssa.Call)
+					if !ok || !strings.HasSuffix(ir.CalleeName(&call.Call), "AdaptiveMaxCalculator.GetAdaptiveBounds") || call.Referrers() == nil {
+						return
+					}
+					nSites++
+					var nanTested func(v ssa.Value) bool
+					visited := map[ssa.Value]bool{}
+					nanTested = func(v ssa.Value) bool {
+						if v.Referrers() == nil || visited[v] {
+							return false
+						}
+						visited[v] = true
+						for _, r := range *v.Referrers() {
+							// a named result spilled because of a defer: follow the loads of the slot
+							if st, ok := r.(*ssa.Store); ok && st.Val == v {
+								if a, ok := st.Addr.(*ssa.Alloc); ok && a.Referrers() != nil {
+									for _, ar := range *a.Referrers() {
+										if ld, ok := ar.(*ssa.UnOp); ok && ld.Op == token.MUL && nanTested(ld) {
+											return true
+										}
+									}
+								}
+							}
+							uc := ir.CallOf(r)
+							if uc == nil {
+								continue
+							}
+							if ir.CalleeName(uc) == "math.IsNaN" {
+								return true
+							}
+							if callee := uc.StaticCallee(); callee != nil && callee.Blocks != nil && inProd(callee) {
+								for i, a := range uc.Args {
+									if a != v || i >= len(callee.Params) {
+										continue
+									}
+									p := callee.Params[i]
+									if p.Referrers() == nil {
+										continue
+									}
+									for _, pr := range *p.Referrers() {
+										if pc := ir.CallOf(pr); pc != nil && ir.CalleeName(pc) == "math.IsNaN" {
+											return true
+										}
+									}
+								}
+							}
+						}
+						return false
+					}
+					okBoth, nEx := true, 0
+					for _, r := range *call.Referrers() {
+						if ex, ok := r.(*ssa.Extract); ok {
+							nEx++
+							if !nanTested(ex) {
+								okBoth = false
+							}
+						}
+					}
+					key := "C35e/" + ir.FuncName(f) + "/adaptive-bounds-NaN-tested"
+					if okBoth && nEx == 2 {
+						c.OK(key, c.P.InstrPos(in), "math.IsNaN on p10 and p90")
+					} else {
+						c.Fail(key, c.P.InstrPos(in), "the adaptive bounds obtained here are used without a math.IsNaN test of both values: with an empty digest they are NaN, pass the comparison-based range checks, and make the normalised score and the selection weight NaN")
+					}
+				})
+			}
+			if nSites < 4 {
+				c.Undecided("C35e: expected at least 4 GetAdaptiveBounds call sites in the optimizer package, found %d", nSites)
+			}
+		}
+		c.NotCovered("proportionality within statistical tolerance; monotonicity of each normalise* function; floating-point corner cases other than NaN bounds; provider_optimizer.go's tiering around the selector")
 	})
 
 	register("C30", "other", func(c *Ctx) {
